@@ -268,7 +268,7 @@ func CalculateScalarOffset(
 	}
 
 	if vb == nil {
-		return nil, ErrInvalidValueBlinder
+		return result, nil
 	}
 
 	var vn []byte
@@ -318,6 +318,11 @@ func SubtractScalars(a []byte, b []byte) ([]byte, error) {
 
 	if bb == nil {
 		return aa, nil
+	}
+
+	// a - a: the tweak-add below refuses a zero result
+	if aa != nil && bytes.Equal(aa, bb) {
+		return make([]byte, 32), nil
 	}
 
 	r, err := secp256k1.EcPrivKeyNegate(ctx, bb)
@@ -373,6 +378,11 @@ func ComputeAndAddToScalarOffset(
 	scalarOffset, err := CalculateScalarOffset(value, ab, vb)
 	if err != nil {
 		return nil, err
+	}
+
+	// A zero amount without value blinder contributes nothing.
+	if scalarOffset == nil {
+		return s, nil
 	}
 
 	// When we start out, the result (a) is 0, so just set it to the scalar we just computed.
